@@ -649,7 +649,17 @@ impl<F: Field + PrimeCharacteristicRing + Copy, const D: usize> AluAir<F, D> {
                             lane_prep.out_idx = src_last_prep.out_idx;
                             lane_prep.mult_out = src_last_prep.mult_out;
 
-                            lane_prep.mult_b *= F::from_usize(k);
+                            // Each packed step contributes its own `b` multiplicity: the first
+                            // step may create a private `b` (positive multiplicity) that the
+                            // later steps read, so the row carries their sum, not `k` times the first.
+                            lane_prep.mult_b = (0..k)
+                                .map(|t| {
+                                    let src_t: &AluPrepLaneCols<F> = self.preprocessed
+                                        [(*first_idx + t) * plw..(*first_idx + t + 1) * plw]
+                                        .borrow();
+                                    src_t.mult_b
+                                })
+                                .sum();
                             lane_prep.mult_a
                         };
 
